@@ -26,6 +26,7 @@ import random
 
 from . import e3_gen
 from .c01_overrides import NAMES as OVR_NAMES, client_step
+from .c01_replace import same_size_text
 from .e3 import Project
 
 ENV_NAMES = ["VA", "VB", "VC", "VD"]
@@ -99,6 +100,8 @@ class _Gen(e3_gen._Gen):
         self.rng2 = random.Random(f"c01-gen-amend-env-{seed}")
         self.rng3 = random.Random(f"c01-gen-overrides-{seed}")
         self.ovr_fresh = 0
+        self.rng4 = random.Random(f"c01-gen-replace-{seed}")
+        self.replace_n = 0
 
     # units -----------------------------------------------------------------------------------
     def make_step(self, avail, *, script=None):
@@ -262,6 +265,16 @@ class _Gen(e3_gen._Gen):
         if self.rng2.random() < 0.18 and self.amend_env_change() and \
                 not any(e["op"] == "program" for e in edits):
             edits.append({"op": "program", "program": None})
+        # a source is REPLACED by another file of the same size, mode and mtime (c01_replace)
+        if self.rng4.random() < 0.12:
+            files = sorted(p for p in self.sources if not p.endswith("/") and len(self.sources[p]) > 6
+                           and not any(e.get("path") == p for e in edits))
+            if files:
+                p = self.rng4.choice(files)
+                self.replace_n += 1
+                self.sources[p] = same_size_text(self.sources[p], self.replace_n)
+                edits.append({"op": "replace_keep", "path": p, "content": self.sources[p]})
+                self.stats.edits["replace_keep"] += 1
         if self.rng3.random() < 0.15 and self.override_change() and \
                 not any(e["op"] == "program" for e in edits):
             edits.append({"op": "program", "program": None})
